@@ -79,3 +79,27 @@ impl Expiration for usize {
         usize::MAX
     }
 }
+
+/// Read-only structural snapshots for external verification harnesses.
+/// Compiled only with `--cfg itree_verif`; without the flag the crate is unchanged.
+#[cfg(itree_verif)]
+pub mod verif {
+    /// One arena slot: links, colour and a copy of the stored payload.
+    #[derive(Clone, Debug)]
+    pub struct SlotSnap<T> {
+        pub parent: u32,
+        pub left: u32,
+        pub right: u32,
+        pub black: bool,
+        pub payload: T,
+    }
+
+    /// Whole arena of a tree: root, every slot (used, freed and slot 0), free list and its capacity.
+    #[derive(Clone, Debug)]
+    pub struct ArenaSnap<T> {
+        pub root: u32,
+        pub slots: Vec<SlotSnap<T>>,
+        pub unused: Vec<u32>,
+        pub unused_capacity: usize,
+    }
+}
